@@ -336,3 +336,13 @@ Definition P_TIME : text := [72;72;58;109;109;58;115;115].
 Definition date_from_str (now_year : Z) (s : text) : res Z := date_parse now_year s P_DATE_ISO.
 Definition time_from_str (s : text) : res TM := time_parse s P_TIME.
 Definition dt_from_str (s : text) : res DT := dt_parse_rfc3339 s.
+
+(* Display: Date "yyyy/MM/dd", Time "HH:mm:ss", DateTime "yyyy/MM/dd HH:mm:ss"; Serialize: "yyyy-MM-dd", "HH:mm:ss", format_rfc3339(Seconds) *)
+Definition P_DATE_DISPLAY : text := [121;121;121;121;47;77;77;47;100;100].
+Definition P_DT_DISPLAY : text := P_DATE_DISPLAY ++ [32] ++ P_TIME.
+Definition date_display (d : Z) : res text := date_format d P_DATE_DISPLAY.
+Definition time_display (t : TM) : res text := time_format t P_TIME.
+Definition dt_display (v : DT) : res text := dt_format v P_DT_DISPLAY.
+Definition date_serialize (d : Z) : res text := date_format d P_DATE_ISO.
+Definition time_serialize (t : TM) : res text := time_format t P_TIME.
+Definition dt_serialize (v : DT) : res text := dt_format_rfc3339 v 0.
